@@ -18,6 +18,7 @@ type Profile struct {
 	Closures       bool // a function returning a lambda that closes over its parameter and a local
 	DiscardMatch   bool // a non-unit match used as a statement
 	RecursiveTypes bool // a union that refers to itself (directly, through a pair, through a slice)
+	PaddedInts     bool // some integer literals are written with leading zeros
 	GoKeywordNames bool // some parameters / locals are named like Go keywords (range, map, default, ...)
 	RawStr         bool
 	Tuple3         bool
@@ -57,11 +58,11 @@ type Profile struct {
 	MaxDepth       int
 }
 
-var ProfileC01 = Profile{Name: "c01", Closures: true, DiscardMatch: true, RecursiveTypes: true, GoKeywordNames: true, MulDiv: true, Lambdas: true, StrMatch: true, Interp: true, RawStr: true, Tuple3: true, InnerFun: true, IfOnly: true,
+var ProfileC01 = Profile{Name: "c01", PaddedInts: true, Closures: true, DiscardMatch: true, RecursiveTypes: true, GoKeywordNames: true, MulDiv: true, Lambdas: true, StrMatch: true, Interp: true, RawStr: true, Tuple3: true, InnerFun: true, IfOnly: true,
 	UnionNoDef: true, FieldPerm: true, Partial: true, Pipes: true, HigherOrder: true, CompositeEq: true, UsField: true, SliceLib: true, StringsLib: true,
 	TopVars: true, Shadow: true, LowerFields: true, Recursion: true, StrCompare: true, GenericFns: true, RecGroups: true, Stateful: true, UnitIfElse: true, PipeStmt: true, MoreSlice: true, BareLambda: true, GenericTypes: true, MinFuncs: 3, MaxFuncs: 7, MaxDepth: 4}
 
-var ProfileTiny = Profile{Name: "tinyfo", GoKeywordNames: true, ShadowProb: 0.3, Partial: true, Pipes: true, SliceLib: true, StringsLib: true, HigherOrder: true, CompositeEq: true, Shadow: true, FieldPerm: true, LetRhsInline: true, IfOnly: true, UnionNoDef: true, MinFuncs: 2, MaxFuncs: 5, MaxDepth: 3}
+var ProfileTiny = Profile{Name: "tinyfo", PaddedInts: true, GoKeywordNames: true, ShadowProb: 0.3, Partial: true, Pipes: true, SliceLib: true, StringsLib: true, HigherOrder: true, CompositeEq: true, Shadow: true, FieldPerm: true, LetRhsInline: true, IfOnly: true, UnionNoDef: true, MinFuncs: 2, MaxFuncs: 5, MaxDepth: 3}
 
 type vinfo struct {
 	name string
@@ -720,7 +721,7 @@ func (g *Gen) genRecursive() {
 	name := g.fresh("rec")
 	ev := func(e Expr) Expr { return call("evI", &StrLit{g.tag()}, e) }
 	self := func(args ...Expr) Expr { return call(name, args...) }
-	dec := &BinOp{"-", v("n"), &IntLit{1}}
+	dec := &BinOp{"-", v("n"), &IntLit{V: 1}}
 	var f *FuncDef
 	var tr *UnionDef
 	for _, u := range g.unions {
@@ -740,13 +741,13 @@ func (g *Gen) genRecursive() {
 			var body *Block
 			switch {
 			case c.Payload == nil:
-				body = ExprBlock(ev(&IntLit{g.R.Intn(4)}))
+				body = ExprBlock(ev(&IntLit{V: g.R.Intn(4)}))
 			case c.Payload.K == KInt:
 				body = ExprBlock(ev(v("p")))
 			case c.Payload.K == KUnion:
-				body = ExprBlock(&BinOp{"+", &IntLit{1}, self(v("p"))})
+				body = ExprBlock(&BinOp{"+", &IntLit{V: 1}, self(v("p"))})
 			case c.Payload.K == KSlice:
-				body = ExprBlock(call("slice.Fold", &Lambda{Params: []Param{{Name: "a", T: TInt}, {Name: "b", T: TInt}}, Body: ExprBlock(&BinOp{"+", v("a"), v("b")})}, &IntLit{0}, call("slice.Map", v(name), v("p"))))
+				body = ExprBlock(call("slice.Fold", &Lambda{Params: []Param{{Name: "a", T: TInt}, {Name: "b", T: TInt}}, Body: ExprBlock(&BinOp{"+", v("a"), v("b")})}, &IntLit{V: 0}, call("slice.Map", v(name), v("p"))))
 			case c.Payload.Args[0].K == KUnion:
 				body = &Block{Stmts: []Stmt{&LetDestr{[]string{"l", "r"}, v("p")}}, Result: &BinOp{core.Pick(g.R, []string{"+", "-"}), self(v("l")), self(v("r"))}}
 			default: // string * Tr
@@ -762,8 +763,8 @@ func (g *Gen) genRecursive() {
 		g.feat("recursion-over-recursive-union")
 	case 0:
 		// let sumTo (n:int) : int = if n <= 0 then (evI tag 0) else n + sumTo (n - 1)
-		body := &Block{Result: &If{Cond: &BinOp{"<=", v("n"), &IntLit{0}},
-			Then: ExprBlock(ev(&IntLit{g.R.Intn(5)})),
+		body := &Block{Result: &If{Cond: &BinOp{"<=", v("n"), &IntLit{V: 0}},
+			Then: ExprBlock(ev(&IntLit{V: g.R.Intn(5)})),
 			Else: ExprBlock(&BinOp{core.Pick(g.R, []string{"+", "*", "-"}), ev(v("n")), self(dec)})}}
 		f = &FuncDef{Name: name, Params: []Param{{Name: "n", T: TInt}}, Ret: TInt, AnnotRet: true, Body: body}
 		g.feat("recursion")
@@ -779,24 +780,24 @@ func (g *Gen) genRecursive() {
 		default:
 			step = call("slice.PushLast", ev(v("n")), v("acc"))
 		}
-		body := &Block{Result: &If{Cond: &BinOp{"<=", v("n"), &IntLit{0}}, Then: ExprBlock(v("acc")), Else: ExprBlock(self(dec, step))}}
+		body := &Block{Result: &If{Cond: &BinOp{"<=", v("n"), &IntLit{V: 0}}, Then: ExprBlock(v("acc")), Else: ExprBlock(self(dec, step))}}
 		f = &FuncDef{Name: name, Params: []Param{{Name: "n", T: TInt}, {Name: "acc", T: at}}, Ret: at, AnnotRet: true, Body: body}
 		g.feat("recursion-accumulator")
 	case 2:
 		// structural recursion over a slice
-		body := &Block{Result: &If{Cond: call("slice.IsEmpty", v("xs")), Then: ExprBlock(ev(&IntLit{g.R.Intn(3)})),
+		body := &Block{Result: &If{Cond: call("slice.IsEmpty", v("xs")), Then: ExprBlock(ev(&IntLit{V: g.R.Intn(3)})),
 			Else: ExprBlock(&BinOp{core.Pick(g.R, []string{"+", "-"}), ev(call("slice.Head", v("xs"))), self(call("slice.Tail", v("xs")))})}}
 		f = &FuncDef{Name: name, Params: []Param{{Name: "xs", T: TSlice(TInt)}}, Ret: TInt, AnnotRet: true, Body: body}
 		g.feat("recursion-over-slice")
 	case 3:
 		// nothing annotated: the types come out of the recursion itself (let fib n = ...)
-		body := &Block{Result: &If{Cond: &BinOp{"<", v("n"), &IntLit{2}}, Then: ExprBlock(v("n")),
-			Else: ExprBlock(&BinOp{"+", self(dec), self(&BinOp{"-", v("n"), &IntLit{2}})})}}
+		body := &Block{Result: &If{Cond: &BinOp{"<", v("n"), &IntLit{V: 2}}, Then: ExprBlock(v("n")),
+			Else: ExprBlock(&BinOp{"+", self(dec), self(&BinOp{"-", v("n"), &IntLit{V: 2}})})}}
 		f = &FuncDef{Name: name, Params: []Param{{Name: "n", T: TInt, NoAnnot: true}}, Ret: TInt, Body: body, Pure: true}
 		g.feat("recursion-unannotated")
 	default:
 		// recursion with the call in a let and a statement before it, building a slice of strings
-		body := &Block{Result: &If{Cond: &BinOp{"<=", v("n"), &IntLit{0}}, Then: ExprBlock(&SliceLit{Elems: []Expr{&StrLit{"end"}}}),
+		body := &Block{Result: &If{Cond: &BinOp{"<=", v("n"), &IntLit{V: 0}}, Then: ExprBlock(&SliceLit{Elems: []Expr{&StrLit{"end"}}}),
 			Else: &Block{Stmts: []Stmt{&ExprStmt{call("trace", &StrLit{g.tag()})}, &Let{"rest", self(dec)}},
 				Result: call("slice.PushHead", call("frt.Sprintf1", &StrLit{"n%d"}, v("n")), v("rest"))}}}
 		f = &FuncDef{Name: name, Params: []Param{{Name: "n", T: TInt}}, Ret: TSlice(TString), AnnotRet: true, Body: body}
@@ -911,7 +912,7 @@ func (g *Gen) genRun() {
 				if f.Rec {
 					switch p.T.K {
 					case KInt:
-						args = append(args, &IntLit{g.R.Intn(5)})
+						args = append(args, &IntLit{V: g.R.Intn(5)})
 					case KString:
 						args = append(args, &StrLit{g.strLitVal()})
 					case KUnion:
@@ -923,7 +924,7 @@ func (g *Gen) genRun() {
 							nq = 1
 						}
 						for q := nq; q > 0; q-- {
-							sl.Elems = append(sl.Elems, &IntLit{g.R.Intn(9)})
+							sl.Elems = append(sl.Elems, &IntLit{V: g.R.Intn(9)})
 						}
 						if len(sl.Elems) == 0 {
 							args = append(args, &Call{Fn: v("slice.New"), TArgs: []*Type{TInt}, Args: []Expr{&UnitLit{}}})
@@ -1083,12 +1084,12 @@ func (g *Gen) block(t *Type, outer *scope, d int, fx bool, funcTop bool) *Block 
 				base := g.letName(sc)
 				src := &SliceLit{Elem: TInt}
 				for q, nq := 0, 3+g.R.Intn(3); q < nq; q++ {
-					src.Elems = append(src.Elems, &IntLit{g.R.Intn(9)})
+					src.Elems = append(src.Elems, &IntLit{V: g.R.Intn(9)})
 				}
 				var be Expr = src
 				if g.P.Lambdas && g.R.Bool() {
 					x := g.fresh("x")
-					be = call("slice.Map", g.lam([]Param{{Name: x, T: TInt}}, &BinOp{"+", v(x), &IntLit{1}}), src)
+					be = call("slice.Map", g.lam([]Param{{Name: x, T: TInt}}, &BinOp{"+", v(x), &IntLit{V: 1}}), src)
 				}
 				b.Stmts = append(b.Stmts, &Let{base, be})
 				sc.add(base, TSlice(TInt))
@@ -1096,16 +1097,16 @@ func (g *Gen) block(t *Type, outer *scope, d int, fx bool, funcTop bool) *Block 
 				b.Stmts = append(b.Stmts, &Let{front, call("slice.PopLast", v(base))})
 				sc.add(front, TSlice(TInt))
 				grow := func(from string, k int) Expr {
-					one := &SliceLit{Elem: TInt, Elems: []Expr{&IntLit{90 + k}}}
+					one := &SliceLit{Elem: TInt, Elems: []Expr{&IntLit{V: 90 + k}}}
 					switch g.R.Intn(4) {
 					case 0:
 						return call("slice.Append", v(from), one)
 					case 1:
-						return call("slice.PushLast", &IntLit{90 + k}, v(from))
+						return call("slice.PushLast", &IntLit{V: 90 + k}, v(from))
 					case 2:
 						return call("slice.Concat", &SliceLit{Elem: TSlice(TInt), Elems: []Expr{v(from), one}})
 					}
-					return call("slice.PushHead", &IntLit{90 + k}, v(from))
+					return call("slice.PushHead", &IntLit{V: 90 + k}, v(from))
 				}
 				names := []string{base, front}
 				for q := 0; q < 2; q++ {
@@ -1575,7 +1576,7 @@ func (g *Gen) matchU(t *Type, sc *scope, d int, fx bool) Expr {
 				}
 			}
 			// (a closed condition: the arm's own block may have shadowed any outer name)
-			later.Result = &If{Cond: &BinOp{core.Pick(g.R, []string{"<", ">", "="}), &IntLit{g.R.Intn(3)}, &IntLit{g.R.Intn(3)}}, Then: ExprBlock(v(shadowedOuter)), Else: ExprBlock(later.Result)}
+			later.Result = &If{Cond: &BinOp{core.Pick(g.R, []string{"<", ">", "="}), &IntLit{V: g.R.Intn(3)}, &IntLit{V: g.R.Intn(3)}}, Then: ExprBlock(v(shadowedOuter)), Else: ExprBlock(later.Result)}
 			g.feat("shadowed-outer-variable-used-in-a-later-arm")
 		}
 	}
@@ -1662,7 +1663,12 @@ func (g *Gen) gvar(t *Type) Expr {
 func (g *Gen) lit(t *Type, sc *scope, d int, fx bool) Expr {
 	switch t.K {
 	case KInt:
-		return &IntLit{g.R.Intn(12)}
+		if g.P.PaddedInts && g.R.Chance(0.12) {
+			// decimal literals written with leading zeros (a zero-padded table): 08, 010, 0011
+			g.feat("zero-padded-int-literal")
+			return &IntLit{V: 7 + g.R.Intn(5), Pad: 2 + g.R.Intn(3)}
+		}
+		return &IntLit{V: g.R.Intn(12)}
 	case KString:
 		if g.P.RawStr && g.R.Chance(0.1) {
 			g.feat("raw-string")
@@ -2036,7 +2042,7 @@ func (g *Gen) intExpr(sc *scope, d int, fx bool, k int) Expr {
 		return &BinOp{op, g.expr(TInt, sc, d-1, fx), g.expr(TInt, sc, d-1, fx)}
 	case k == 13 && g.P.MulDiv:
 		g.feat("arith /")
-		return &BinOp{"/", g.expr(TInt, sc, d-1, fx), &IntLit{1 + g.R.Intn(6)}}
+		return &BinOp{"/", g.expr(TInt, sc, d-1, fx), &IntLit{V: 1 + g.R.Intn(6)}}
 	case k == 14 && g.P.SliceLib:
 		g.feat("slice.Length")
 		et := core.Pick(g.R, []*Type{TInt, TString})
@@ -2062,7 +2068,7 @@ func (g *Gen) intExpr(sc *scope, d int, fx bool, k int) Expr {
 		case 1:
 			return call("slice.Last", ne)
 		}
-		return call("slice.Item", &IntLit{0}, ne)
+		return call("slice.Item", &IntLit{V: 0}, ne)
 	}
 	return nil
 }
@@ -2229,7 +2235,7 @@ func (g *Gen) sliceExpr(t *Type, sc *scope, d int, fx bool, k int) Expr {
 		return call("slice.Append", g.expr(t, sc, d-1, fx), g.expr(t, sc, d-1, fx))
 	case k == 11:
 		g.feat("slice.Skip")
-		return call("slice.Skip", &IntLit{g.R.Intn(3)}, g.expr(t, sc, d-1, fx))
+		return call("slice.Skip", &IntLit{V: g.R.Intn(3)}, g.expr(t, sc, d-1, fx))
 	case k == 12:
 		g.feat("slice.Tail/PopLast")
 		ne := call("slice.PushLast", g.expr(et, sc, d-1, fx), g.expr(t, sc, d-1, fx))
@@ -2363,7 +2369,7 @@ func (g *Gen) moreSlice(t *Type, sc *scope, d int, fx bool) Expr {
 		if et.K == KInt {
 			x := g.fresh("x")
 			g.feat("slice.SortBy")
-			return call("slice.SortBy", g.lam([]Param{{Name: x, T: TInt}}, &BinOp{"-", &IntLit{g.R.Intn(9)}, v(x)}), g.expr(t, sc, d-1, fx))
+			return call("slice.SortBy", g.lam([]Param{{Name: x, T: TInt}}, &BinOp{"-", &IntLit{V: g.R.Intn(9)}, v(x)}), g.expr(t, sc, d-1, fx))
 		}
 		if et.K == KString {
 			x := g.fresh("x")
@@ -2374,9 +2380,9 @@ func (g *Gen) moreSlice(t *Type, sc *scope, d int, fx bool) Expr {
 	case 3:
 		g.feat("slice.Take")
 		if g.R.Bool() {
-			return call("slice.Take", &IntLit{0}, g.expr(t, sc, d-1, fx))
+			return call("slice.Take", &IntLit{V: 0}, g.expr(t, sc, d-1, fx))
 		}
-		return call("slice.Take", &IntLit{1}, call("slice.PushLast", g.expr(et, sc, d-1, fx), g.expr(t, sc, d-1, fx)))
+		return call("slice.Take", &IntLit{V: 1}, call("slice.PushLast", g.expr(et, sc, d-1, fx), g.expr(t, sc, d-1, fx)))
 	default:
 		g.feat("slice.Concat")
 		sl := &SliceLit{Elem: t}
